@@ -1,8 +1,11 @@
 use crate::core::{Property, Tier};
 
+pub mod simgen;
+pub mod simprops;
 pub mod c02;
 pub mod c03;
 pub mod c06;
+pub mod c08;
 pub mod c09;
 pub mod c10;
 pub mod c11;
@@ -17,8 +20,12 @@ pub mod c20;
 
 pub fn property(id: &str, tier: Tier) -> Option<Property> {
     Some(match id {
+        "C01" => simprops::c01(tier),
+        "C04" => simprops::c04(tier),
+        "C05" => simprops::c05(tier),
         "C02" => c02::property(tier),
         "C03" => c03::property(tier),
+        "C08" => c08::property(tier),
         "C09" => c09::property(tier),
         "C10" => c10::property(tier),
         "C19" => c19::property(tier),
